@@ -1,14 +1,22 @@
-"""C02 K-centers: farthest point, stopping rule, shortcut (structural clauses)."""
+"""C02 K-centers: farthest point, stopping rule, shortcut (structural clauses).
+
+The constructs are located by ROLE (positional parameters of the iteration
+functions, the call that invokes the iteration inside the main loop, what is
+returned, what is stored under which mask, which branch conditions dominate a
+statement) and their contents are compared after expansion of temporaries and
+canonicalisation against lists of accepted forms.  A recognised construct
+with a different content is a VIOLATION; a shape the rule cannot see through
+is reported as analysis-incomplete."""
 import ast
 import itertools
 
 from .. import nullness
 from ..cfg import ENTRY, EXIT, Assume, header_uses
-from ..core import (AnalysisIncomplete, call_name, const_value, dotted, kwarg,
-                    names_loaded, params, target_names, u, walk_expr,
-                    walk_local)
-from ..patterns import (Cmp, assigns_to, calls_in, conjuncts, finfo,
-                        returns_of, subscript_stores)
+from ..core import (AnalysisIncomplete, arg_or_kw, call_name, const_value,
+                    names_loaded, params, u, walk_expr, walk_local)
+from ..match import C, canon, classify, match
+from ..patterns import (Cmp, calls_in, conjuncts, finfo, returns_of,
+                        subscript_stores)
 from .cluster_common import KC, check_running_min_commit
 
 EXPLANATION = (
@@ -28,240 +36,238 @@ EXPLANATION = (
     'Optimality (2-approximation) and numeric equality of the two variants '
     'follow by a textbook argument and are not re-proved.')
 
-
-def is_argmax_of(e, name):
-    if isinstance(e, ast.Call):
-        cn = call_name(e)
-        if cn in ('np.argmax', 'numpy.argmax') and e.args and u(e.args[0]) == name \
-                and len(e.args) == 1 and not e.keywords:
-            return True
-        if isinstance(e.func, ast.Attribute) and e.func.attr == 'argmax' and \
-                u(e.func.value) == name and not e.args:
-            return True
-    return False
+ITER_FUNCS = ('_kcenters_iteration', '_kcenters_iteration_mpi')
+INF_FORMS = ['np.inf', 'float("inf")', 'math.inf', 'np.Inf', 'np.infty', 'numpy.inf', 'np.PINF']
 
 
-def is_max_of(e, name):
-    if isinstance(e, ast.Call):
-        cn = call_name(e)
-        if cn in ('np.max', 'np.amax') and e.args and u(e.args[0]) == name and len(e.args) == 1:
-            return True
-        if isinstance(e.func, ast.Attribute) and e.func.attr == 'max' and \
-                u(e.func.value) == name and not e.args and cn not in ('np.max',):
-            return True
-    return False
+# ---------------------------------------------------------------------------
+# generic helpers (candidates for a shared module, see report)
 
-
-def d1_farthest(ck):
-    rule = 'C02.D1.farthest'
-    mod = ck.repo.mod(KC)
-    fn = mod.func('_kcenters_iteration')
-    fi = finfo(mod, fn)
-    ck.analysed(mod, fn)
-    dparam = 'distances'
-    if dparam not in params(fn):
-        raise AnalysisIncomplete('_kcenters_iteration has no `distances` parameter')
-    # the index used to select the returned centre
-    rets = returns_of(fn)
-    n = 0
-    for r in rets:
-        if not isinstance(r.value, ast.Tuple):
+def du_value(fi, nm, strict=True):
+    """Value of a single-definition name.  Like FuncInfo.temp_value, but also
+    for a name bound to a call the purity oracle does not know
+    (`distance_method(...)`, `comm.allgather(...)`): the name then denotes the
+    result of THAT call (a def-use fact, the call is not re-evaluated),
+    provided the object is never mutated in place and no operand is rebound
+    (or, strict, mutated) between the definition and the use."""
+    v = fi.temp_value(nm, strict)
+    if v is not None:
+        return v
+    if not (isinstance(nm, ast.Name) and isinstance(nm.ctx, ast.Load)):
+        return None
+    try:
+        defs = fi.defs_of_use(nm)
+    except Exception:
+        return None
+    if len(defs) != 1:
+        return None
+    site = next(iter(defs))
+    if site in ('PARAM', 'UNBOUND') or not isinstance(site, (ast.Assign, ast.AnnAssign)):
+        return None
+    v = fi.def_value(site, nm.id)
+    if v is None or isinstance(v, ast.GeneratorExp):
+        return None
+    if fi._mutated_in_place(nm.id):
+        return None
+    use = fi.stmt(nm)
+    for m in walk_expr(v):
+        if not (isinstance(m, ast.Name) and isinstance(m.ctx, ast.Load)):
             continue
-        cexpr = fi.resolve(r.value.elts[0])
-        if not (isinstance(cexpr, ast.Subscript) and isinstance(cexpr.slice, ast.Name)):
-            ck.bad(rule, mod, r, '_kcenters_iteration', u(cexpr),
-                   'returned centre is not traj[<index>]')
-            continue
-        idx = cexpr.slice
-        defs = fi.defs_of_use(idx)
-        for site in defs:
-            v = fi.def_value(site, idx.id) if site not in ('PARAM', 'UNBOUND') else None
-            n += 1
-            ok = v is not None and is_argmax_of(v, dparam)
-            # the distances operand must be the parameter value (no prior rebinding)
-            if ok:
-                opnames = [x for x in walk_expr(v) if isinstance(x, ast.Name) and x.id == dparam]
-                ok = all(fi.defs_of_use(x) == {'PARAM'} for x in opnames)
-            ck.check(ok, rule, mod, site if hasattr(site, 'lineno') else r,
-                     '_kcenters_iteration', u(site) if hasattr(site, 'lineno') else idx.id,
-                     'next centre = argmax of the running-minimum distances passed in',
-                     'the index of the next centre must be np.argmax(%s) of the '
-                     'running-minimum distance array received as parameter '
-                     '(farthest-point rule); found `%s`' % (dparam, u(v) if v is not None else site))
-    # MPI
-    fn2 = mod.func('_kcenters_iteration_mpi')
-    fi2 = finfo(mod, fn2)
-    ck.analysed(mod, fn2)
-    df = calls_in(fn2, 'mpi.ops.distribute_frame')
-    if len(df) != 1:
-        ck.missing(rule, 'distribute_frame call in _kcenters_iteration_mpi')
-    else:
-        owner = kwarg(df[0], 'owner_rank')
-        widx = kwarg(df[0], 'world_index')
-        for nm, role in ((owner, 'owner'), (widx, 'index')):
-            if not isinstance(nm, ast.Name):
-                ck.bad(rule, mod, df[0], '_kcenters_iteration_mpi', u(df[0]),
-                       '%s argument is not a plain name' % role)
+        if fi.rd.defs_at(site, m.id) != fi.rd.defs_at(use, m.id):
+            return None
+        for ms in (fi._mutated_in_place(m.id) if strict else []):
+            if ms is use or ms is site:
                 continue
-            for site in fi2.defs_of_use(nm):
-                v = fi2.def_value(site, nm.id)
-                n += 1
-                if isinstance(v, ast.Constant) and v.value == 0:
-                    # cold start: first centre is frame 0 of rank 0; must be
-                    # guarded by len(center_inds) == 0
-                    g = _guarding_if(mod, site)
-                    ok = g is not None and u(g.test) in ('len(center_inds) == 0', 'not center_inds', 'len(center_inds) < 1')
-                    ck.check(ok, rule, mod, site, '_kcenters_iteration_mpi', u(site),
-                             'cold start selects frame 0 on rank 0 only when no centre exists',
-                             'frame-0/rank-0 default must be guarded by an empty centre list')
-                    continue
-                if role == 'owner':
-                    ok = isinstance(v, ast.Call) and isinstance(v.func, ast.Attribute) and v.func.attr == 'argmax' and \
-                        not v.args and _is_allgather_of(fi2, v.func.value, 'max', dparam)
-                    ck.check(ok, rule, mod, site, '_kcenters_iteration_mpi', u(site),
-                             'owner = argmax over all-gathered local maxima of distances',
-                             'owner rank of the next centre must be argmax of the '
-                             'all-gathered local maxima of `%s`' % dparam)
-                else:
-                    ok = isinstance(v, ast.Subscript) and isinstance(v.slice, ast.Name) and \
-                        isinstance(owner, ast.Name) and v.slice.id == owner.id and \
-                        _is_allgather_of(fi2, v.value, 'argmax', dparam)
-                    ck.check(ok, rule, mod, site, '_kcenters_iteration_mpi', u(site),
-                             'index = all-gathered local argmax at the owner',
-                             'local index of the next centre must be the all-gathered '
-                             'local argmax of `%s` taken at the owner rank' % dparam)
-    ck.floor(rule, n, 5, 'farthest-point definitions')
-    # cold start arrays
-    fnk = mod.func('kcenters')
-    ck.analysed(mod, fnk)
-    for name, fill in (('distances', 'np.inf'), ('assignments', '-1')):
-        found = False
-        for s in assigns_to(fnk, name):
-            if isinstance(s, ast.Assign) and isinstance(s.value, ast.Call) and \
-                    call_name(s.value) == 'np.full':
-                found = True
-                a = s.value.args
-                ok = len(a) >= 2 and u(a[0]) == 'len(traj)' and u(a[1]) == fill
-                ck.check(ok, 'C02.D1.coldstart', mod, s, 'kcenters', u(s),
-                         'cold start: %s = %s for every frame' % (name, fill),
-                         'cold start must initialise %s to %s for every frame of traj '
-                         '(so that frame 0 is the first farthest point and every frame '
-                         'is claimed by the first centre)' % (name, fill))
-        if not found:
-            ck.missing('C02.D1.coldstart', 'np.full initialisation of %s' % name)
+            if fi.cfg.reachable(site, ms, avoiding=[use]) and fi.cfg.reachable(ms, use, avoiding=[site]):
+                return None
+    return v
 
 
-def _guarding_if(mod, node):
-    p = mod.parent.get(node)
-    while p is not None and not isinstance(p, (ast.If, ast.FunctionDef)):
-        p = mod.parent.get(p)
-    return p if isinstance(p, ast.If) else None
-
-
-def _is_allgather_of(fi, e, reduction, dparam):
-    e = fi.resolve(e) if isinstance(e, ast.Name) else e
-    if isinstance(e, ast.Call) and call_name(e) == 'np.array' and e.args:
-        e = e.args[0]
-    if not (isinstance(e, ast.Call) and (call_name(e) or '').endswith('comm.allgather') and e.args):
-        return False
-    inner = e.args[0]
-    return is_argmax_of(inner, dparam) if reduction == 'argmax' else is_max_of(inner, dparam)
-
-
-def d2_guard(ck):
-    rule = 'C02.D2.guard'
-    mod = ck.repo.mod(KC)
-    fn = mod.func('kcenters')
-    fi = finfo(mod, fn)
-    loops = [w for w in walk_local(fn) if isinstance(w, ast.While)]
-    main = [w for w in loops if any(isinstance(c, ast.Call) and u(c.func) == 'iteration'
-                                    for c in walk_local(w))]
-    if len(main) != 1:
-        ck.missing(rule, 'main while loop calling the iteration function (found %d)' % len(main))
-        return
-    w = main[0]
-    cs = conjuncts(w.test, True)
-    if cs is None:
-        ck.bad(rule, mod, w, 'kcenters', u(w.test),
-               'the loop must continue only while BOTH criteria ask for more centres; '
-               'the guard is a disjunction, so clustering continues after one '
-               'criterion is already met')
-        return
-    count_ok = dist_ok = None
-    extras = []
-    for c in cs:
-        if not isinstance(c, Cmp):
-            extras.append(c)
-            continue
-        less = c.as_less()
-        if less is None:
-            extras.append(c)
-            continue
-        small, strict, big = less
-        if isinstance(small, ast.Call) and call_name(small) == 'len' and u(big) == 'n_clusters':
-            lst = u(small.args[0])
-            count_ok = (strict, lst, c)
-        elif u(small) == 'dist_cutoff' and isinstance(big, ast.Name):
-            dist_ok = (strict, big.id, c, big)
+def _helper_expr(stmts):
+    """The expression computed by a helper body made only of `return e` and
+    `if c: ... [else: ...]` whose branches all return; None otherwise."""
+    body = [s for s in stmts if not (isinstance(s, ast.Pass) or (
+        isinstance(s, ast.Expr) and isinstance(s.value, ast.Constant)))]
+    if not body:
+        return None
+    s = body[0]
+    if isinstance(s, ast.Return) and s.value is not None:
+        return s.value
+    if isinstance(s, ast.If):
+        a = _helper_expr(s.body)
+        if s.orelse:
+            b = _helper_expr(s.orelse)
         else:
-            extras.append(c)
-    if extras:
-        ck.bad(rule, mod, w, 'kcenters', u(w.test),
-               'unexpected extra/unrecognised conjunct(s) in the loop guard: %s' % (
-                   [str(e) for e in extras]))
-    if count_ok is None:
-        ck.bad(rule, mod, w, 'kcenters', u(w.test),
-               'guard lacks the test len(<centre list>) < n_clusters')
-    else:
-        strict, lst, c = count_ok
-        ck.check(strict, rule + '.count', mod, w, 'kcenters', str(c),
-                 'continue only while count < n_clusters (strict)',
-                 'count test must be strict (len(%s) < n_clusters): with <= one centre '
-                 'too many is added' % lst)
-        # the list must grow by exactly one per trip: it is passed to iteration
-        # which appends once (C01.D1) - check it is the list passed
-        calls = [c2 for c2 in calls_in(w) if u(c2.func) == 'iteration']
-        passed = any(any(u(a) == lst for a in c2.args) for c2 in calls)
-        ck.check(passed, rule + '.count', mod, w, 'kcenters',
-                 'iteration(..., %s, ...)' % lst,
-                 'the counted list is the one the iteration extends',
-                 'the list counted by the guard (`%s`) is not the one handed to the '
-                 'iteration, so the count never changes / is stale' % lst)
-    if dist_ok is None:
-        ck.bad(rule, mod, w, 'kcenters', u(w.test),
-               'guard lacks the test maxdist > dist_cutoff')
-    else:
-        strict, md, c, mdnode = dist_ok
-        ck.check(strict, rule + '.radius', mod, w, 'kcenters', str(c),
-                 'continue only while radius > cutoff (strict)',
-                 'radius test must be strict (maxdist > dist_cutoff): with >= the loop '
-                 'keeps adding centres although the covering radius is no longer '
-                 'above the cutoff')
-        # maxdist definitions reaching the guard
-        defs = fi.rd.defs_at(w, md)
-        for site in defs:
-            if site in ('PARAM', 'UNBOUND'):
-                ck.bad(rule + '.radius', mod, w, 'kcenters', md,
-                       'radius variable possibly unbound/parameter at the guard')
-                continue
-            v = fi.def_value(site, md)
-            ok, why = _is_global_max_of_distances(fi, site, v)
-            in_loop = _inside(mod, site, w)
-            if ok and in_loop:
-                # distances used must be the one returned by this trip
-                dn = [x for x in walk_expr(v) if isinstance(x, ast.Name) and x.id == 'distances']
-                unpack = [s for s in walk_local(w) if isinstance(s, ast.Assign)
-                          and isinstance(s.value, ast.Call) and u(s.value.func) == 'iteration']
-                ok = bool(dn) and all(fi.defs_of_use(x) == set(unpack) for x in dn)
-                why = 'radius recomputed from the distances returned by this trip' if ok else \
-                    'radius on the back edge is not computed from the distances returned by this trip'
-            ck.check(ok, rule + '.radius', mod, site, 'kcenters', u(site),
-                     why, 'definition of `%s` reaching the guard: %s' % (md, why))
-        inloop_defs = [s for s in defs if s not in ('PARAM', 'UNBOUND') and _inside(mod, s, w)]
-        ck.check(len(inloop_defs) >= 1, rule + '.radius', mod, w, 'kcenters',
-                 'back-edge definition of %s' % md,
-                 'radius is refreshed inside the loop',
-                 'the radius `%s` is never recomputed inside the loop: the guard tests a stale value' % md)
+            b = _helper_expr(body[1:])
+        if a is None or b is None:
+            return None
+        return ast.IfExp(test=s.test, body=a, orelse=b)
+    return None
+
+
+def local_helper(fi, func):
+    """If the Name `func` (callee of a call) is bound to a nested def of the
+    analysed function that merely computes an expression of its positional
+    parameters and of names of the enclosing scope: (param names, expr)."""
+    if not isinstance(func, ast.Name):
+        return None
+    try:
+        defs = fi.defs_of_use(func)
+    except Exception:
+        return None
+    if len(defs) != 1:
+        return None
+    h = next(iter(defs))
+    if not isinstance(h, ast.FunctionDef) or h.decorator_list:
+        return None
+    a = h.args
+    if a.vararg or a.kwarg or a.kwonlyargs or a.defaults or a.posonlyargs:
+        return None
+    e = _helper_expr(h.body)
+    if e is None:
+        return None
+    for n in ast.walk(e):
+        if isinstance(n, (ast.Lambda, ast.comprehension, ast.NamedExpr, ast.Yield, ast.YieldFrom, ast.Await)):
+            return None
+    return [x.arg for x in a.args], e
+
+
+def du_expand(fi, expr, stop=(), strict=True, depth=8, inline=True):
+    """FuncInfo.expand with def-use resolution of call-valued names
+    (du_value) and inlining of local single-expression helpers.  Every Name
+    of the result that stems from a Name of the analysed function carries
+    the attribute `_orig` (that node), so that reaching definitions can still
+    be asked for the operands of the expanded expression."""
+
+    def subst(e, env):
+        if isinstance(e, ast.Name):
+            if e.id in env and isinstance(e.ctx, ast.Load):
+                return env[e.id]
+            return ast.Name(id=e.id, ctx=e.ctx)
+        if not isinstance(e, ast.AST):
+            return e
+        if isinstance(e, (ast.expr_context, ast.operator, ast.unaryop, ast.boolop, ast.cmpop)):
+            return e
+        new = type(e)()
+        for f in e._fields:
+            val = getattr(e, f, None)
+            if isinstance(val, list):
+                setattr(new, f, [subst(x, env) for x in val])
+            elif isinstance(val, ast.AST):
+                setattr(new, f, subst(val, env))
+            else:
+                setattr(new, f, val)
+        return new
+
+    def ex(e, d):
+        if isinstance(e, ast.Name):
+            if d > 0 and e.id not in stop and isinstance(e.ctx, ast.Load):
+                v = du_value(fi, e, strict)
+                if v is not None:
+                    return ex(v, d - 1)
+            new = ast.copy_location(ast.Name(id=e.id, ctx=e.ctx), e)
+            new._orig = e
+            return new
+        if not isinstance(e, ast.AST):
+            return e
+        if isinstance(e, (ast.expr_context, ast.operator, ast.unaryop, ast.boolop, ast.cmpop)):
+            return e
+        if inline and d > 0 and isinstance(e, ast.Call) and not e.keywords and \
+                not any(isinstance(a, ast.Starred) for a in e.args):
+            h = local_helper(fi, e.func)
+            if h is not None and len(h[0]) == len(e.args):
+                env = dict(zip(h[0], [ex(a, d) for a in e.args]))
+                return subst(h[1], env)
+        new = type(e)()
+        for f in e._fields:
+            val = getattr(e, f, None)
+            if isinstance(val, list):
+                setattr(new, f, [ex(x, d) for x in val])
+            elif isinstance(val, ast.AST):
+                setattr(new, f, ex(val, d))
+            else:
+                setattr(new, f, val)
+        for a in ('lineno', 'col_offset', 'end_lineno', 'end_col_offset'):
+            if hasattr(e, a):
+                setattr(new, a, getattr(e, a))
+        return new
+    return ex(expr, depth)
+
+
+def cx(node):
+    """Canonical tree (provenance attributes dropped)."""
+    return canon(_strip(node))
+
+
+def _strip(node):
+    """Plain copy of a tree without positions / provenance attributes."""
+    def cp(e):
+        if not isinstance(e, ast.AST):
+            return e
+        if isinstance(e, (ast.expr_context, ast.operator, ast.unaryop, ast.boolop, ast.cmpop)):
+            return e
+        n = type(e)()
+        for f in e._fields:
+            val = getattr(e, f, None)
+            if isinstance(val, list):
+                setattr(n, f, [cp(x) for x in val])
+            elif isinstance(val, ast.AST):
+                setattr(n, f, cp(val))
+            else:
+                setattr(n, f, val)
+        return n
+    return cp(node)
+
+
+def ctext(node):
+    return u(cx(node))
+
+
+def cls(node, pats, scope=None, near=2):
+    """match.classify; with `scope`, an expression that is not closed over
+    the scope but differs from an accepted form in at most `near` positions
+    (argmin for argmax, another array, another constant) is still `near`."""
+    node = _strip(node)
+    if scope is None:
+        return classify(node, pats, near=near)
+    v = classify(node, pats, scope=scope)
+    if v[0] == 'far' and v[1] <= near:
+        return ('near',) + tuple(v[1:])
+    return v
+
+
+def origins(node, name):
+    """Original Name nodes (of the analysed function) behind the occurrences
+    of `name` in an expression produced by du_expand."""
+    out = []
+    for x in ast.walk(node):
+        if isinstance(x, ast.Name) and x.id == name:
+            out.append(getattr(x, '_orig', None))
+    return out
+
+
+def dominating_facts(fi, stmt):
+    """Atomic facts (patterns.conjuncts items) known to hold whenever `stmt`
+    executes: the conjuncts of every branch condition (with its polarity)
+    whose Assume node dominates the statement.  A dominating condition that is
+    not a conjunction under its polarity is returned as ('opaque', test, pol)."""
+    out = []
+    for n in fi.cfg.nodes:
+        if isinstance(n, Assume) and fi.cfg.dominates(n, stmt):
+            test = fi.expand(n.test)        # a named flag stands for its definition
+            cs = conjuncts(test, n.polarity)
+            if cs is None:
+                out.append(('opaque', test, n.polarity))
+            else:
+                out.extend(cs)
+    return out
+
+
+def fact_expr(f):
+    """(expression, polarity) of a fact."""
+    if isinstance(f, Cmp):
+        return ast.Compare(left=f.lhs, ops=[f.op()], comparators=[f.rhs]), True
+    return f[1], f[2]
 
 
 def _inside(mod, node, anc):
@@ -273,29 +279,559 @@ def _inside(mod, node, anc):
     return False
 
 
-def _is_global_max_of_distances(fi, site, v):
-    if v is None:
-        return False, 'not a simple assignment'
-    alts = [v.body, v.orelse] if isinstance(v, ast.IfExp) else [v]
-    for a in alts:
-        if is_max_of(a, 'distances'):
-            continue
-        if isinstance(a, ast.Call) and (call_name(a) or '').endswith('striped_array_max') \
-                and a.args and u(a.args[0]) == 'distances':
-            continue
-        return False, '`%s` is not the maximum of the distance array' % u(a)
-    if isinstance(v, ast.IfExp):
-        # MPI branch must be selected by mpi_mode
-        if u(v.test) != 'mpi_mode':
-            return False, 'serial/MPI maximum selected by `%s`' % u(v.test)
-        if not (call_name(v.body) or '').endswith('striped_array_max'):
-            return False, 'MPI mode must use the all-reduced maximum'
-    return True, 'maximum of the current distances'
+# ---------------------------------------------------------------------------
+# roles
 
+def iteration_roles(fn):
+    """Positional roles of an iteration function (the call site in kcenters
+    passes them by position; `centers` and `use_triangle_inequality` by
+    keyword)."""
+    P = params(fn)
+    if len(P) < 5:
+        raise AnalysisIncomplete('%s has fewer than 5 parameters' % fn.name)
+    r = {'T': P[0], 'DM': P[1], 'D': P[2], 'A': P[3], 'L': P[4],
+         'USE': 'use_triangle_inequality' if 'use_triangle_inequality' in P else None,
+         'CS': 'centers' if 'centers' in P else None}
+    return r
+
+
+def _is_iteration_callee(fi, func):
+    if not isinstance(func, ast.Name):
+        return False
+    if func.id in ITER_FUNCS:
+        return True
+    try:
+        defs = fi.defs_of_use(func)
+    except Exception:
+        return False
+    if not defs:
+        return False
+    for site in defs:
+        if site in ('PARAM', 'UNBOUND'):
+            return False
+        v = fi.def_value(site, func.id)
+        alts = [v.body, v.orelse] if isinstance(v, ast.IfExp) else [v]
+        if not all(isinstance(a, ast.Name) and a.id in ITER_FUNCS for a in alts):
+            return False
+    return True
+
+
+def main_loop(fi):
+    """[(while loop, iteration call)] of kcenters: the while loops whose body
+    calls one of the iteration functions (directly or through a local name
+    every definition of which is one of them)."""
+    out = []
+    for w in walk_local(fi.fn):
+        if not isinstance(w, ast.While):
+            continue
+        cs = [c for s in w.body for c in walk_expr(s) if isinstance(c, ast.Call)
+              and _is_iteration_callee(fi, c.func)]
+        if cs:
+            out.append((w, cs[0]))
+    return out
+
+
+def kcenters_roles(ck, rule, mod):
+    """Names playing the roles in kcenters, found from the iteration call."""
+    fn = mod.func('kcenters')
+    fi = finfo(mod, fn)
+    ml = main_loop(fi)
+    if len(ml) != 1:
+        ck.missing(rule, 'main while loop calling the iteration function (found %d)' % len(ml))
+        return None
+    w, call = ml[0]
+    got = {}
+    for role, pos, kw in (('T', 0, 'traj'), ('D', 2, 'distances'), ('A', 3, 'assignments'), ('L', 4, 'center_inds')):
+        a = arg_or_kw(call, pos, kw)
+        if not isinstance(a, ast.Name):
+            ck.missing(rule, 'argument %d (%s) of the iteration call is not a plain name: %s' % (pos, kw, u(call)[:120]))
+            return None
+        got[role] = a.id
+    P = params(fn)
+    got['NC'] = 'n_clusters' if 'n_clusters' in P else (P[2] if len(P) > 2 else None)
+    got['DC'] = 'dist_cutoff' if 'dist_cutoff' in P else (P[3] if len(P) > 3 else None)
+    got['MPI'] = 'mpi_mode' if 'mpi_mode' in P else None
+    if got['NC'] is None or got['DC'] is None:
+        ck.missing(rule, 'n_clusters / dist_cutoff parameters of kcenters')
+        return None
+    got.update(fn=fn, fi=fi, loop=w, call=call)
+    return got
+
+
+# ---------------------------------------------------------------------------
+# D1
+
+def d1_farthest(ck):
+    rule = 'C02.D1.farthest'
+    mod = ck.repo.mod(KC)
+    n = _d1_serial(ck, rule, mod)
+    n += _d1_mpi(ck, rule, mod)
+    ck.floor(rule, n, 5, 'farthest-point definitions')
+    _d1_coldstart(ck, mod)
+
+
+def _d1_serial(ck, rule, mod):
+    q = '_kcenters_iteration'
+    fn = mod.func(q)
+    fi = finfo(mod, fn)
+    ck.analysed(mod, fn)
+    R = iteration_roles(fn)
+    T, D = R['T'], R['D']
+    forms = ['%s[%s.argmax()]' % (T, D), '%s[int(%s.argmax())]' % (T, D),
+             '%s[%s.argmax(axis=0)]' % (T, D), '%s[%s.argmax(0)]' % (T, D)]
+    n = 0
+    for r in returns_of(fn):
+        if not isinstance(r.value, ast.Tuple) or not r.value.elts:
+            ck.missing(rule, '%s: return value is not a tuple (new centre first)' % q)
+            continue
+        first = r.value.elts[0]
+        # the definitions of the returned centre, each examined where it is made
+        if isinstance(first, ast.Name):
+            sites = []
+            for site in fi.defs_of_use(first):
+                v = fi.def_value(site, first.id) if site not in ('PARAM', 'UNBOUND') else None
+                sites.append((site, v))
+        else:
+            sites = [(r, first)]
+        for site, v in sites:
+            n += 1
+            if v is None:
+                ck.missing(rule, '%s: definition of the returned centre `%s` is not a simple assignment' % (q, u(first)))
+                continue
+            x = fi.expand(v)
+            verdict = cls(x, forms, scope={T, D})
+            if verdict[0] == 'match':
+                # the operand must be the array received as parameter, unchanged
+                if fi.rd.defs_at(site, D) != {'PARAM'}:
+                    ck.missing(rule, '%s: `%s` is rebound before the farthest point is selected at %s' % (q, D, mod.loc(site)))
+                    continue
+                early = [ms for ms in fi._mutated_in_place(D) if ms is not site and fi.cfg.reachable(ms, site)]
+                if early:
+                    ck.missing(rule, '%s: `%s` is modified in place (%s) before the farthest point is selected' % (
+                        q, D, u(early[0])[:80]))
+                    continue
+            ck.decide(verdict, rule, mod, site, q, u(site),
+                      'next centre = frame at argmax of the running-minimum distances passed in',
+                      'the next centre must be %s[np.argmax(%s)] with `%s` the running-minimum distance '
+                      'array received as parameter (farthest-point rule); found `%s`' % (T, D, D, ctext(x)))
+    return n
+
+
+def _empty_fact(f, L):
+    """Does the fact say that list L is empty?"""
+    if isinstance(f, Cmp):
+        l, r = ctext(f.lhs), ctext(f.rhs)
+        ln = 'len(%s)' % L
+        if f.op is ast.Eq:
+            return {l, r} in ({ln, '0'}, {L, '[]'})
+        less = f.as_less()
+        if less is not None:
+            small, strict, big = less
+            if ctext(small) == ln and const_value(big) is not None:
+                return (strict and const_value(big) == 1) or (not strict and const_value(big) == 0)
+        return False
+    if f[0] == 'expr':
+        return f[2] is False and ctext(f[1]) in (L, 'len(%s)' % L, 'bool(%s)' % L)
+    return False
+
+
+def _d1_mpi(ck, rule, mod):
+    q = '_kcenters_iteration_mpi'
+    fn = mod.func(q)
+    fi = finfo(mod, fn)
+    ck.analysed(mod, fn)
+    R = iteration_roles(fn)
+    D, L = R['D'], R['L']
+    n = 0
+    df = [c for c in calls_in(fn) if (call_name(c) or '').split('.')[-1] == 'distribute_frame']
+    if len(df) != 1:
+        ck.missing(rule, 'distribute_frame call in _kcenters_iteration_mpi (found %d)' % len(df))
+        return n
+    call = df[0]
+    cstmt = fi.stmt(call)
+    owner = arg_or_kw(call, 2, 'owner_rank')
+    widx = arg_or_kw(call, 1, 'world_index')
+    empties = [a for a in fi.cfg.nodes if isinstance(a, Assume) and (
+        lambda cs: cs is not None and any(_empty_fact(f, L) for f in cs))(conjuncts(a.test, a.polarity))]
+    # (np.array(<name>) is spelled <name>.copy() by the front end)
+    owner_forms = ['np.array(__.allgather(%s.max())).argmax()' % D, '__.allgather(%s.max()).argmax()' % D,
+                   'np.asarray(__.allgather(%s.max())).argmax()' % D, 'int(np.array(__.allgather(%s.max())).argmax())' % D,
+                   '__.allgather(%s.max()).copy().argmax()' % D]
+    owner_defs = fi.defs_of_use(owner) if isinstance(owner, ast.Name) else set()
+    for nm, role in ((owner, 'owner'), (widx, 'index')):
+        if not isinstance(nm, ast.Name):
+            ck.missing(rule, '%s argument of distribute_frame is not a plain name: %s' % (role, u(nm)))
+            continue
+        defs = fi.defs_of_use(nm)
+        for site in defs:
+            v = fi.def_value(site, nm.id) if site not in ('PARAM', 'UNBOUND') else None
+            n += 1
+            if v is None:
+                ck.missing(rule, '%s: definition of `%s` reaching distribute_frame is not a simple assignment' % (q, nm.id))
+                continue
+            if isinstance(v, ast.Constant):
+                # cold start: the first centre is frame 0 of rank 0, admissible
+                # only while no centre exists
+                if not (v.value == 0 and v.value is not False):
+                    ck.bad(rule, mod, site, q, u(site),
+                           'a constant %s can only be the cold-start default, which must be frame 0 on rank 0' % role)
+                    continue
+                others = [d for d in defs if d is not site and d not in ('PARAM', 'UNBOUND')]
+                guarded = any(fi.cfg.dominates(e, site) for e in empties) or \
+                    not fi.cfg.reachable(site, cstmt, avoiding=list(empties) + others)
+                stable = fi.rd.defs_at(cstmt, L) == {'PARAM'} and not any(
+                    fi.cfg.reachable(ms, cstmt) for ms in fi._mutated_in_place(L))
+                if guarded and not stable:
+                    ck.missing(rule, '%s: centre list `%s` is changed before distribute_frame; emptiness at the call not established' % (q, L))
+                    continue
+                ck.check(guarded, rule, mod, site, q, u(site),
+                         'cold start selects frame 0 on rank 0 only when no centre exists',
+                         'frame-0/rank-0 default must be guarded by an empty centre list')
+                continue
+            if role == 'owner':
+                x = du_expand(fi, v)
+                ck.decide(cls(x, owner_forms), rule, mod, site, q, u(site),
+                          'owner = argmax over all-gathered local maxima of distances',
+                          'owner rank of the next centre must be argmax of the '
+                          'all-gathered local maxima of `%s`; found `%s`' % (D, ctext(x)[:160]))
+            else:
+                x = du_expand(fi, v, stop=(owner.id,) if isinstance(owner, ast.Name) else ())
+                O = owner.id if isinstance(owner, ast.Name) else '_O'
+                forms = ['np.array(__.allgather(%s.argmax()))[%s]' % (D, O), '__.allgather(%s.argmax())[%s]' % (D, O),
+                         'np.asarray(__.allgather(%s.argmax()))[%s]' % (D, O),
+                         'int(np.array(__.allgather(%s.argmax()))[%s])' % (D, O),
+                         '__.allgather(%s.argmax()).copy()[%s]' % (D, O)]
+                verdict = cls(x, forms)
+                if verdict[0] == 'match' and isinstance(owner, ast.Name):
+                    # the owner used as position must be the owner handed to distribute_frame
+                    od = set()
+                    for o in origins(x, O):
+                        od |= fi.defs_of_use(o) if o is not None else {'?'}
+                    paired = len(od) == 1 and od <= owner_defs and not any(
+                        d is not next(iter(od)) and d not in ('PARAM', 'UNBOUND') and fi.cfg.reachable(site, d)
+                        and fi.cfg.reachable(d, cstmt) for d in owner_defs)
+                    if not paired:
+                        ck.bad(rule, mod, site, q, u(site),
+                               'the all-gathered local argmax is taken at a rank that is not (always) the owner '
+                               'rank handed to distribute_frame')
+                        continue
+                ck.decide(verdict, rule, mod, site, q, u(site),
+                          'index = all-gathered local argmax at the owner',
+                          'local index of the next centre must be the all-gathered '
+                          'local argmax of `%s` taken at the owner rank; found `%s`' % (D, ctext(x)[:160]))
+    return n
+
+
+def _alloc_parts(e):
+    """(shape, fill, dtype) of a constant-fill numpy allocation, else None.
+    shape is an expression or ('like', <array expr>); fill is an expression,
+    or the string 'uninitialised' for np.empty*."""
+    if not isinstance(e, ast.Call):
+        return None
+    cn = (call_name(e) or '').replace('numpy.', 'np.')
+    const = {'np.zeros': ast.Constant(value=0), 'np.ones': ast.Constant(value=1), 'np.empty': 'uninitialised'}
+    if cn == 'np.full':
+        return arg_or_kw(e, 0, 'shape'), arg_or_kw(e, 1, 'fill_value'), arg_or_kw(e, 2, 'dtype')
+    if cn in const:
+        return arg_or_kw(e, 0, 'shape'), const[cn], arg_or_kw(e, 1, 'dtype')
+    if cn == 'np.full_like':
+        a = arg_or_kw(e, 0, 'a')
+        return (('like', a) if a is not None else None), arg_or_kw(e, 1, 'fill_value'), arg_or_kw(e, 2, 'dtype')
+    if cn[:-5] in const and cn.endswith('_like'):
+        a = arg_or_kw(e, 0, 'a')
+        return (('like', a) if a is not None else None), const[cn[:-5]], arg_or_kw(e, 1, 'dtype')
+    return None
+
+
+def _shape_verdict(shape, T):
+    """Is the allocation one cell per frame of T?  'match' / 'near' / 'far'."""
+    if isinstance(shape, tuple):            # *_like(<array>): as long as that array
+        inner = _alloc_parts(shape[1])
+        if inner is None or inner[0] is None:
+            return 'far'
+        return _shape_verdict(inner[0], T)
+    if u(shape) in (C('len(%s)' % T), C('(len(%s),)' % T), C('[len(%s)]' % T)):
+        return 'match'
+    return classify(shape, ['len(%s)' % T], scope={T})[0]
+
+
+def _d1_coldstart(ck, mod):
+    rule = 'C02.D1.coldstart'
+    K = kcenters_roles(ck, rule, mod)
+    if K is None:
+        return
+    fn, fi, w = K['fn'], K['fi'], K['loop']
+    ck.analysed(mod, fn)
+    T = K['T']
+    spec = (
+        (K['D'], 'np.inf', [C(f) for f in INF_FORMS],
+         ('None', 'float', 'np.float64', 'np.double', 'np.float_', "'float'", "'float64'", "'f8'", 'np.longdouble'),
+         ['np.ones(len(%s)) * np.inf' % T, 'np.inf * np.ones(len(%s))' % T, 'np.zeros(len(%s)) + np.inf' % T,
+          'np.repeat(np.inf, len(%s))' % T, 'np.array([np.inf] * len(%s))' % T]),
+        (K['A'], '-1', [C('-1')],
+         ('None', 'int', 'np.int64', 'np.intp', 'np.int_', "'int'", "'int64'", "'i8'", 'np.int32'),
+         ['-np.ones(len(%s), dtype=int)' % T, 'np.ones(len(%s), dtype=int) * -1' % T, '-1 * np.ones(len(%s), dtype=int)' % T,
+          'np.zeros(len(%s), dtype=int) - 1' % T, 'np.repeat(-1, len(%s))' % T, 'np.array([-1] * len(%s))' % T]),
+    )
+    for name, fill, fills, dtypes, others in spec:
+        found = 0
+        for site in fi.rd.defs_at(w, name):
+            if site in ('PARAM', 'UNBOUND') or _inside(mod, site, w):
+                continue
+            v = fi.def_value(site, name)
+            if v is None:
+                continue            # warm start: unpacked from assign_to_nearest_center
+            found += 1
+            x = cx(fi.expand(v))
+            parts = _alloc_parts(x)
+            why_bad = 'cold start must initialise %s to %s for every frame of %s (so that frame 0 is the first ' \
+                      'farthest point and every frame is claimed by the first centre)' % (name, fill, T)
+            if parts is not None and parts[0] is not None and parts[1] is not None:
+                shape, fv, dt = parts
+                sv = _shape_verdict(shape, T)
+                if sv != 'match':
+                    ck.decide(sv, rule, mod, site, 'kcenters', u(site), '', why_bad)
+                    continue
+                if isinstance(fv, str):
+                    ck.bad(rule, mod, site, 'kcenters', u(site), why_bad + '; the array is left uninitialised')
+                    continue
+                if u(fv) not in fills:
+                    ck.decide(classify(fv, [fill], scope=set()), rule, mod, site, 'kcenters', u(site), '', why_bad)
+                    continue
+                if dt is None and isinstance(shape, tuple):
+                    ck.missing(rule, 'dtype of `%s` is inherited from another array' % u(site)[:100])
+                    continue
+                if u(dt) not in dtypes:
+                    wrong = u(dt) in (('int', 'np.int64', 'bool', 'np.intp', 'np.int32') if fill == 'np.inf' else
+                                      ('float', 'np.float64', 'bool', 'np.float32'))
+                    if wrong:
+                        ck.bad(rule, mod, site, 'kcenters', u(site), why_bad + '; dtype %s cannot hold it' % u(dt))
+                    else:
+                        ck.missing(rule, 'dtype `%s` of the cold-start %s array not recognised' % (u(dt), name))
+                    continue
+                ck.ok(rule, mod, site, u(site), 'cold start: %s = %s for every frame' % (name, fill))
+            else:
+                # some other expression: accepted spellings, a small edit of one
+                # (wrong constant / sign) is a violation, anything else unknown
+                ck.decide(cls(x, others, near=2), rule, mod, site, 'kcenters', u(site),
+                          'cold start: %s = %s for every frame' % (name, fill), why_bad)
+        if not found:
+            ck.missing(rule, 'cold-start initialisation of %s (the array handed to the iteration) before the main loop' % name)
+
+
+# ---------------------------------------------------------------------------
+# D2
+
+def _radius_alt(alt, D):
+    """'serial' / 'mpi' if alt is the (local / all-reduced) maximum of D."""
+    if match('%s.max()' % D, alt) is not None:
+        return 'serial'
+    if isinstance(alt, ast.Call) and (call_name(alt) or '').split('.')[-1] == 'striped_array_max' \
+            and len(alt.args) == 1 and not alt.keywords and u(alt.args[0]) == D:
+        return 'mpi'
+    return None
+
+
+def _radius_value(fi, v, K):
+    """Three-valued recognition of a definition of the covering radius.
+    Returns (verdict, why, origin Name nodes of the distance array)."""
+    D, MPI = K['D'], K['MPI']
+    x = du_expand(fi, v, stop=(D,))
+    org = origins(x, D)
+    xc = cx(x)
+    forms = ['%s.max()' % D, 'mpi.ops.striped_array_max(%s)' % D,
+             'mpi.ops.striped_array_max(%s) if %s else %s.max()' % (D, MPI, D)]
+    alts = [xc.body, xc.orelse] if isinstance(xc, ast.IfExp) else [xc]
+    kinds = [_radius_alt(a, D) for a in alts]
+    if any(k is None for k in kinds):
+        verdict = cls(xc, forms, scope={D, MPI} if MPI else {D})
+        if verdict[0] == 'match':
+            verdict = ('far', 0, None)
+        return verdict, '`%s` is not the maximum of the distance array `%s`' % (u(xc)[:120], D), org
+    if isinstance(xc, ast.IfExp):
+        if not (isinstance(xc.test, ast.Name) and xc.test.id == MPI):
+            verdict = classify(xc.test, [MPI or 'mpi_mode'], scope={MPI} if MPI else set())
+            return verdict, 'serial/MPI maximum selected by `%s`' % u(xc.test), org
+        if kinds[0] != 'mpi':
+            return ('near', 1, None), 'MPI mode must use the all-reduced maximum', org
+    return ('match', {}), 'maximum of the current distances', org
+
+
+def _trip_bindings(fi, mod, w, call, name, idx):
+    """Statements of the loop that bind `name` to element `idx` of the value
+    returned by the iteration call of this trip."""
+    out = []
+    for s in walk_local(w):
+        if not isinstance(s, ast.Assign) or len(s.targets) != 1:
+            continue
+        t, v = s.targets[0], s.value
+        src = v
+        if isinstance(v, ast.Name):
+            src = du_value(fi, v) or v
+        if isinstance(t, (ast.Tuple, ast.List)) and src is call:
+            if len(t.elts) > idx and isinstance(t.elts[idx], ast.Name) and t.elts[idx].id == name \
+                    and not any(isinstance(e, ast.Starred) for e in t.elts):
+                out.append(s)
+        elif isinstance(t, ast.Name) and t.id == name and isinstance(v, ast.Subscript) and const_value(v.slice) == idx:
+            b = v.value
+            if isinstance(b, ast.Name):
+                b = du_value(fi, b) or b
+            if b is call:
+                out.append(s)
+    return out
+
+
+def _returns_its_argument(mod, ppos, rpos):
+    """Both iteration functions return, at tuple position rpos, the object
+    received as positional parameter ppos (never rebound)."""
+    for q in ITER_FUNCS:
+        fn = mod.func(q)
+        fi = finfo(mod, fn)
+        P = params(fn)
+        rets = returns_of(fn)
+        if len(P) <= ppos or not rets:
+            return False
+        for r in rets:
+            if not (isinstance(r.value, ast.Tuple) and len(r.value.elts) > rpos):
+                return False
+            e = r.value.elts[rpos]
+            if not (isinstance(e, ast.Name) and e.id == P[ppos] and fi.rd.defs_at(r, e.id) == {'PARAM'}):
+                return False
+    return True
+
+
+def d2_guard(ck):
+    rule = 'C02.D2.guard'
+    mod = ck.repo.mod(KC)
+    K = kcenters_roles(ck, rule, mod)
+    if K is None:
+        return
+    fn, fi, w, call = K['fn'], K['fi'], K['loop'], K['call']
+    NC, DC, L, D = K['NC'], K['DC'], K['L'], K['D']
+    cs = conjuncts(w.test, True)
+    if cs is None:
+        ck.bad(rule, mod, w, 'kcenters', u(w.test),
+               'the loop must continue only while BOTH criteria ask for more centres; '
+               'the guard is a disjunction, so clustering continues after one '
+               'criterion is already met')
+        return
+    count_ok = dist_ok = None
+    extras = []
+    for c in cs:
+        less = c.as_less() if isinstance(c, Cmp) else None
+        if less is None:
+            extras.append(c)
+            continue
+        small, strict, big = less
+        xs, xb = cx(fi.expand(small)), cx(fi.expand(big))
+        mlen = match('len(_L)', xs)
+        if mlen is not None and u(xb) == NC and count_ok is None:
+            count_ok = (strict, u(mlen['_L']), c)
+        elif u(xs) == DC and dist_ok is None:
+            dist_ok = (strict, big, c)
+        else:
+            extras.append(c)
+    if extras:
+        scope = {NC, DC, L, D} | ({dist_ok[1].id} if dist_ok and isinstance(dist_ok[1], ast.Name) else set())
+        for e in extras:
+            ex, pol = fact_expr(e)
+            if not pol:
+                ex = ast.UnaryOp(op=ast.Not(), operand=ex)
+            v = classify(fi.expand(ex), ['len(%s) < %s' % (L, NC), '%s < __' % DC], scope=scope)
+            ck.decide(v if v[0] != 'match' else ('near', 0, None), rule, mod, w, 'kcenters', u(w.test), '',
+                      'extra conjunct `%s` in the loop guard: the loop must stop exactly when the requested number '
+                      'of centres is reached or the radius is no longer above the cutoff' % (
+                          e if isinstance(e, Cmp) else u(ex)))
+    if count_ok is None:
+        if not extras:
+            ck.bad(rule, mod, w, 'kcenters', u(w.test),
+                   'guard lacks the test len(<centre list>) < n_clusters')
+    else:
+        strict, lst, c = count_ok
+        ck.check(strict, rule + '.count', mod, w, 'kcenters', str(c),
+                 'continue only while count < n_clusters (strict)',
+                 'count test must be strict (len(%s) < n_clusters): with <= one centre '
+                 'too many is added' % lst)
+        # the list must grow by exactly one per trip: it is passed to the
+        # iteration, which appends once (C01.D1)
+        ck.check(lst == L, rule + '.count', mod, w, 'kcenters',
+                 'iteration(..., %s, ...)' % lst,
+                 'the counted list is the one the iteration extends',
+                 'the list counted by the guard (`%s`) is not the one handed to the '
+                 'iteration (`%s`), so the count never changes / is stale' % (lst, L))
+    if dist_ok is None:
+        if not extras:
+            ck.bad(rule, mod, w, 'kcenters', u(w.test),
+                   'guard lacks the test maxdist > dist_cutoff')
+        return
+    strict, mdnode, c = dist_ok
+    ck.check(strict, rule + '.radius', mod, w, 'kcenters', str(c),
+             'continue only while radius > cutoff (strict)',
+             'radius test must be strict (maxdist > dist_cutoff): with >= the loop '
+             'keeps adding centres although the covering radius is no longer '
+             'above the cutoff')
+    trip = _trip_bindings(fi, mod, w, call, D, 1)
+    outer_d = {d for d in fi.rd.defs_at(w, D) if d in ('PARAM', 'UNBOUND') or not _inside(mod, d, w)}
+    if not isinstance(mdnode, ast.Name):
+        # the radius is recomputed inside the guard itself
+        verdict, why, org = _radius_value(fi, mdnode, K)
+        ck.decide(verdict, rule + '.radius', mod, w, 'kcenters', u(mdnode), why, why)
+        return
+    md = mdnode.id
+    defs = fi.rd.defs_at(w, md)
+    for site in defs:
+        if site in ('PARAM', 'UNBOUND'):
+            ck.bad(rule + '.radius', mod, w, 'kcenters', md,
+                   'radius variable possibly unbound/parameter at the guard')
+            continue
+        v = fi.def_value(site, md)
+        if v is None:
+            ck.missing(rule + '.radius', 'definition of `%s` at %s is not a simple assignment' % (md, mod.loc(site)))
+            continue
+        verdict, why, org = _radius_value(fi, v, K)
+        if verdict[0] == 'match':
+            if not org or any(o is None for o in org):
+                ck.missing(rule + '.radius', 'provenance of `%s` in `%s` not established' % (D, u(site)[:100]))
+                continue
+            used = set()
+            for o in org:
+                used |= fi.defs_of_use(o)
+            if _inside(mod, site, w):
+                ok = bool(trip) and used == set(trip)
+                if not ok and _returns_its_argument(mod, 2, 1):
+                    # the iteration hands back the very array it received: the
+                    # array passed to this trip's call, read after the call, IS
+                    # the returned one
+                    arg = arg_or_kw(call, 2, 'distances')
+                    cst = fi.stmt(call)
+                    ok = isinstance(arg, ast.Name) and used == fi.defs_of_use(arg) and \
+                        fi.rd.defs_at(site, D) == fi.rd.defs_at(cst, D) and \
+                        not fi.cfg.reachable(w, site, avoiding=[cst])
+                why = 'radius recomputed from the distances returned by this trip' if ok else \
+                    'radius on the back edge is not computed from the distances returned by this trip'
+            else:
+                ok = used == outer_d
+                why = 'radius before the first trip computed from the distances the first trip starts with' if ok else \
+                    'initial radius is not computed from the distances the loop starts with'
+            ck.check(ok, rule + '.radius', mod, site, 'kcenters', u(site),
+                     why, 'definition of `%s` reaching the guard: %s' % (md, why))
+        else:
+            ck.decide(verdict, rule + '.radius', mod, site, 'kcenters', u(site), why,
+                      'definition of `%s` reaching the guard: %s' % (md, why))
+    inloop_defs = [s for s in defs if s not in ('PARAM', 'UNBOUND') and _inside(mod, s, w)]
+    ck.check(len(inloop_defs) >= 1, rule + '.radius', mod, w, 'kcenters',
+             'back-edge definition of %s' % md,
+             'radius is refreshed inside the loop',
+             'the radius `%s` is never recomputed inside the loop: the guard tests a stale value' % md)
+
+
+# ---------------------------------------------------------------------------
+# D3
 
 def d3_unbound(ck):
     rule = 'C02.D3.definite-assignment'
     mod = ck.repo.mod(KC)
+    from ..cfg import stmt_defs
     for q in ('kcenters', '_kcenters_iteration', '_kcenters_iteration_mpi'):
         fn = mod.func(q)
         fi = finfo(mod, fn)
@@ -311,7 +847,7 @@ def d3_unbound(ck):
                 if fi.rd.possibly_unbound(s, nm.id):
                     # witness path avoiding all defs
                     defs = [d for d in fi.cfg.nodes if d not in (ENTRY, EXIT)
-                            and not isinstance(d, Assume) and nm.id in __import__('sa.cfg', fromlist=['stmt_defs']).stmt_defs(d)]
+                            and not isinstance(d, Assume) and nm.id in stmt_defs(d)]
                     path = fi.cfg.path(ENTRY, s, avoiding=defs)
                     wit = ' -> '.join(fi.cfg.describe(x) for x in (path or [])[:14])
                     ck.bad(rule, mod, s, q, 'read of `%s` in: %s' % (nm.id, u(s)[:100]),
@@ -321,143 +857,355 @@ def d3_unbound(ck):
         ck.ok(rule, mod, fn, '%s: %d local reads' % (q, n), 'every local read is definitely assigned')
 
 
+# ---------------------------------------------------------------------------
+# D4
+
 def d4_criteria(ck):
     rule = 'C02.D4.criteria'
     mod = ck.repo.mod(KC)
     fn = mod.func('kcenters')
     fi = finfo(mod, fn)
-    loops = [w for w in walk_local(fn) if isinstance(w, ast.While)]
+    ml = main_loop(fi)
+    loops = [w for w, _ in ml] or [w for w in walk_local(fn) if isinstance(w, ast.While)]
     if not loops:
         ck.missing(rule, 'while loop')
         return
     w = loops[0]
+    P = params(fn)
+    NC = 'n_clusters' if 'n_clusters' in P else P[2]
+    DC = 'dist_cutoff' if 'dist_cutoff' in P else P[3]
     for a, b in itertools.product([nullness.NONE, nullness.NOTNONE], repeat=2):
-        IN, OUT = nullness.run(fi, {'n_clusters': a, 'dist_cutoff': b})
+        IN, OUT = nullness.run(fi, {NC: a, DC: b})
         st = IN.get(w)
-        desc = 'n_clusters %s, dist_cutoff %s' % (a, b)
+        desc = '%s %s, %s %s' % (NC, a, DC, b)
         if st is None:
             # unreachable: must be because the function raised
             ck.ok(rule, mod, w, desc, 'rejected with an exception before the loop')
             continue
-        ok = st.get('n_clusters') == nullness.NOTNONE and st.get('dist_cutoff') == nullness.NOTNONE
+        ok = st.get(NC) == nullness.NOTNONE and st.get(DC) == nullness.NOTNONE
         ck.check(ok, rule, mod, w, 'kcenters', desc + ' -> guard ' + u(w.test),
                  'both criteria are numbers at the guard',
                  'for the input combination (%s) the loop guard compares with None '
                  '(state at guard: n_clusters=%s dist_cutoff=%s): TypeError instead '
-                 'of using the remaining criterion' % (desc, st.get('n_clusters'), st.get('dist_cutoff')))
-    # the defaults substituted must be +inf for the count and 0 for the radius
-    for name, want in (('n_clusters', ('np.inf', 'float("inf")', "float('inf')", 'math.inf')), ('dist_cutoff', ('0', '0.0'))):
-        for s in assigns_to(fn, name):
-            if isinstance(s, ast.Assign):
-                ck.check(u(s.value) in want, rule + '.default', mod, s, 'kcenters', u(s),
-                         'missing criterion replaced by its neutral element',
-                         'a missing %s must be replaced by %s (the value that never stops the loop)' % (name, want[0]))
+                 'of using the remaining criterion' % (desc, st.get(NC), st.get(DC)))
+    # the value substituted for a missing criterion must be its neutral
+    # element: +inf for the count, 0 for the radius.  A "substitution" is an
+    # assignment to the criterion that is reached with the criterion None.
+    for name, want, forms in ((NC, 'np.inf', INF_FORMS), (DC, '0', ['0', '0.0', '-0.0'])):
+        IN, OUT = nullness.run(fi, {name: nullness.NONE})
+        for s in fi.cfg.nodes:
+            if not isinstance(s, (ast.Assign, ast.AnnAssign)) or _inside(mod, s, w):
+                continue
+            v = fi.def_value(s, name)
+            st = IN.get(s)
+            if v is None or st is None or st.get(name) != nullness.NONE:
+                continue
+            ck.decide(classify(fi.expand(v), forms, scope=set()), rule + '.default', mod, s, 'kcenters', u(s),
+                      'missing criterion replaced by its neutral element',
+                      'a missing %s must be replaced by %s (the value that never stops the loop)' % (name, want))
+
+
+# ---------------------------------------------------------------------------
+# D5
+
+ALIAS_FORMS = ['_D', '_D[:]', '_D[...]', 'np.asarray(_D)', 'np.asanyarray(_D)', '_D.view()', '_D.ravel()',
+               'np.asarray(_D, dtype=float)', '_D.reshape(-1)', '_D.squeeze()', 'np.array(_D, copy=False)',
+               '_D.astype(float, copy=False)']
+COPY_FORMS = ['_D.copy()', 'np.array(_D, copy=True)', 'copy.copy(_D)', 'copy.deepcopy(_D)', '_D.astype(__)',
+              '_D + 0', '_D * 1', '_D.flatten()', 'np.array(_D, dtype=__)', '_D[:].copy()', 'np.array(_D[:])',
+              'np.empty_like(_D) * 0 + _D', '0 + _D', '1 * _D', '_D + 0.0', '_D * 1.0']
+
+
+def _threshold_factor(thr, A):
+    """(factor, centre-distance base expr) of `cc[A] / k`, `cc[A] * c`,
+    `c * cc[A]`, `cc[A]`; (None, base-or-None) if the shape is unfamiliar."""
+    def cc_of(e):
+        if isinstance(e, ast.Subscript) and u(e.slice) == A:
+            return e.value
+        return None
+    if cc_of(thr) is not None:
+        return 1.0, cc_of(thr)
+    if isinstance(thr, ast.BinOp) and isinstance(thr.op, ast.Div) and cc_of(thr.left) is not None:
+        k = const_value(thr.right)
+        if isinstance(k, (int, float)) and not isinstance(k, bool) and k > 0:
+            return 1.0 / k, cc_of(thr.left)
+        return None, cc_of(thr.left)
+    if isinstance(thr, ast.BinOp) and isinstance(thr.op, ast.Mult):
+        for a, b in ((thr.left, thr.right), (thr.right, thr.left)):
+            k = const_value(a)
+            if cc_of(b) is not None:
+                if isinstance(k, (int, float)) and not isinstance(k, bool):
+                    return float(k), cc_of(b)
+                return None, cc_of(b)
+    base = None
+    for x in ast.walk(thr):
+        if cc_of(x) is not None:
+            base = cc_of(x)
+    return None, base
+
+
+def _dm_verdict(x, DM, forms0, forms1, whole, scope):
+    """Three-valued recognition of `DM(<data>, <point>)`: if x is a call of
+    the distance function with two positional arguments, each argument is
+    classified against its accepted forms (an argument that is a different
+    pure function of the names in scope is a violation); otherwise x is
+    compared as a whole against `whole`."""
+    x = _strip(x)
+    if isinstance(x, ast.Call) and isinstance(x.func, ast.Name) and x.func.id == DM and len(x.args) == 2 \
+            and not x.keywords and not any(isinstance(a, ast.Starred) for a in x.args):
+        vs = [cls(x.args[0], forms0, scope=scope), cls(x.args[1], forms1, scope=scope)]
+        for kind in ('near', 'far'):
+            for v in vs:
+                if v[0] == kind:
+                    return v
+        return ('match', {})
+    return cls(x, whole, near=3)
 
 
 def d5_triangle(ck):
     rule = 'C02.D5.triangle'
     mod = ck.repo.mod(KC)
     n = 0
-    for q, cand in (('_kcenters_iteration', None), ('_kcenters_iteration_mpi', None)):
+    for q in ITER_FUNCS:
         fn = mod.func(q)
         fi = finfo(mod, fn)
-        # find the recompute mask:  distances > (cc[assignments] / k)
+        R = iteration_roles(fn)
+        T, DM, D, A, L, USE, CS = R['T'], R['DM'], R['D'], R['A'], R['L'], R['USE'], R['CS']
+        rets = [r for r in returns_of(fn) if isinstance(r.value, ast.Tuple) and r.value.elts
+                and isinstance(r.value.elts[0], ast.Name)]
+        if len(rets) != 1:
+            ck.missing(rule, '%s: single `return <new centre>, ...`' % q)
+            continue
+        ret = rets[0]
+        NEW = ret.value.elts[0].id
+
+        def is_new(stmt):
+            return fi.rd.defs_at(stmt, NEW) == fi.rd.defs_at(ret, NEW)
+
+        # --- the recompute mask: a comparison between the current distances
+        # and something indexed by the labels
         masks = []
-        for s in walk_local(fn):
-            if isinstance(s, ast.Assign) and isinstance(s.value, ast.Compare) and \
-                    len(s.value.ops) == 1 and isinstance(s.targets[0], ast.Name):
-                c = Cmp(s.value.left, type(s.value.ops[0]), s.value.comparators[0])
-                less = c.as_less()
-                if less is None:
-                    continue
-                small, strict, big = less
-                if u(big) == 'distances' and 'assignments' in names_loaded(small):
-                    masks.append((s, small, strict, c))
+        for c0 in walk_local(fn):
+            if not (isinstance(c0, ast.Compare) and len(c0.ops) == 1):
+                continue
+            c = Cmp(c0.left, type(c0.ops[0]), c0.comparators[0])
+            less = c.as_less()
+            if less is None:
+                continue
+            small, strict, big = less
+            xs, xb = cx(fi.expand(small)), cx(fi.expand(big))
+            if u(xb) == D and _threshold_factor(xs, A)[1] is not None:
+                masks.append((c0, xs, strict, c, True))
+            elif u(xs) == D and _threshold_factor(xb, A)[1] is not None:
+                masks.append((c0, xb, strict, c, False))
+        # the same mask spelled out more than once counts once
+        seen = {}
+        for m in masks:
+            seen.setdefault(fi.xu(m[0], strict=False), m)
+        masks = list(seen.values())
         if len(masks) != 1:
             ck.missing(rule, '%s: triangle-inequality recompute mask (found %d)' % (q, len(masks)))
             continue
-        s, thr, strict, c = masks[0]
+        mcmp, thr, strict, c, upward = masks[0]
+        s = fi.stmt(mcmp)
         n += 1
-        # threshold = cc[assignments] / k  or * c
-        factor = None
-        cc = None
-        if isinstance(thr, ast.BinOp) and isinstance(thr.op, ast.Div):
-            k = const_value(thr.right)
-            if isinstance(k, (int, float)) and k > 0:
-                factor = 1.0 / k
-            cc = thr.left
-        elif isinstance(thr, ast.BinOp) and isinstance(thr.op, ast.Mult):
-            for a, b in ((thr.left, thr.right), (thr.right, thr.left)):
-                k = const_value(a)
-                if isinstance(k, (int, float)):
-                    factor, cc = float(k), b
-        ok = factor is not None and factor <= 0.5 and isinstance(cc, ast.Subscript) \
-            and u(cc.slice) == 'assignments'
-        ck.check(ok, rule + '.threshold', mod, s, q, u(s),
-                 'recompute frames with d > d(centre,new) * %s (<= 1/2)' % factor,
-                 'pruning is sound only for frames with d(x,c) <= d(c,new)/2 '
-                 '(triangle inequality): the recompute mask must be '
-                 'distances > cc_dists[assignments] / k with k >= 2; found `%s`' % c)
-        mask = s.targets[0].id
-        # cc_dists = distance_method(<centres>, new_center)
-        if isinstance(cc, ast.Subscript) and isinstance(cc.value, ast.Name):
-            for site in fi.defs_of_use(cc.value):
-                v = fi.def_value(site, cc.value.id)
-                okc = False
-                if isinstance(v, ast.Call):
-                    txt = u(v)
-                    okc = 'new_center' in txt and ('center' in u(v.args[0]) if v.args else False)
-                ck.check(okc, rule + '.centre-dists', mod, site, q, u(site)[:160],
-                         'centre-to-new-centre distances come from the current centres',
-                         'cc_dists must be the distances between the current centres and the new centre')
-        # candidate = distances.copy(); candidate[mask] = distance_method(traj[mask], new_center)
-        st = [(a, t) for a, t in subscript_stores(fn) if isinstance(t.slice, ast.Name)
-              and t.slice.id == mask]
-        if len(st) != 1:
-            ck.bad(rule + '.recompute', mod, s, q, u(s),
-                   'expected exactly one store under the recompute mask, found %d' % len(st))
+        if fi.rd.defs_at(s, D) != {'PARAM'} or fi.rd.defs_at(s, A) != {'PARAM'}:
+            ck.missing(rule, '%s: `%s`/`%s` rebound before the recompute mask' % (q, D, A))
             continue
-        a, t = st[0]
-        candname = u(t.value)
-        v = a.value
-        okr = isinstance(v, ast.Call) and u(v.func) == 'distance_method' and len(v.args) == 2 \
-            and u(v.args[0]) == 'traj[%s]' % mask and u(v.args[1]) == 'new_center'
-        ck.check(okr, rule + '.recompute', mod, a, q, u(a),
-                 'masked frames get their true distance to the new centre',
-                 'recomputed entries must be distance_method(traj[%s], new_center)' % mask)
-        # candidate is a copy of distances
-        for site in fi.defs_of_use(t.value) if isinstance(t.value, ast.Name) else []:
-            vv = fi.def_value(site, candname)
-            okc = isinstance(vv, ast.Call) and u(vv) in (
-                'distances.copy()', 'np.copy(distances)', 'np.array(distances)',
-                'np.array(distances, copy=True)', 'copy.copy(distances)')
-            ck.check(okc, rule + '.copy', mod, site, q, u(site),
-                     'candidate distances start as a COPY of the current distances',
-                     'the candidate array must be a copy of `distances`: if it aliases '
-                     'it, recomputed values are written into the current distances '
-                     'before the strict commit mask is evaluated (labels are then '
-                     'never updated for them)')
-        # guard of the shortcut: use_triangle_inequality and all assigned
-        g = _guarding_if(mod, s)
-        okg = g is not None and 'use_triangle_inequality' in names_loaded(g.test) and \
-            'assignments' in names_loaded(g.test)
-        cj = conjuncts(g.test, True) if g is not None else None
-        okg = okg and cj is not None
-        ck.check(okg, rule + '.guard', mod, g or s, q, u(g.test) if g else '?',
-                 'shortcut only when requested and every frame already has a centre',
-                 'the shortcut indexes cc_dists[assignments]: it must be guarded by '
-                 'use_triangle_inequality AND all assignments >= 0')
-        # the else branch computes all distances
-        if g is not None and g.orelse:
-            full = [x for x in walk_local(ast.Module(body=g.orelse, type_ignores=[]))
-                    if isinstance(x, ast.Assign)]
-            okf = any(u(x.targets[0]) == candname and isinstance(x.value, ast.Call)
-                      and u(x.value.func) == 'distance_method' and u(x.value.args[0]) == 'traj'
-                      and u(x.value.args[1]) == 'new_center' for x in full)
-            ck.check(okf, rule + '.plain', mod, g, q, 'else: ' + '; '.join(u(x) for x in full)[:120],
-                     'plain branch computes every distance to the new centre into the same candidate',
-                     'plain branch must assign distance_method(traj, new_center) to `%s`' % candname)
+        factor, cc = _threshold_factor(thr, A)
+        if not upward:
+            ck.bad(rule + '.threshold', mod, s, q, u(s),
+                   'the recompute mask selects the frames BELOW the pruning threshold: exactly the frames '
+                   'that cannot be closer to the new centre are recomputed and the others are skipped; found `%s`' % c)
+        elif factor is not None:
+            ck.check(factor <= 0.5, rule + '.threshold', mod, s, q, u(s),
+                     'recompute frames with d > d(centre,new) * %s (<= 1/2)' % factor,
+                     'pruning is sound only for frames with d(x,c) <= d(c,new)/2 '
+                     '(triangle inequality): the recompute mask must be '
+                     'distances > cc_dists[assignments] / k with k >= 2; found `%s`' % c)
+        else:
+            ccn = u(cc)
+            v = classify(thr, ['%s[%s] / 2' % (ccn, A)], scope={ccn, A} if isinstance(cc, ast.Name) else None)
+            ck.decide(v, rule + '.threshold', mod, s, q, u(s), '',
+                      'pruning threshold must be cc_dists[assignments] / k with k >= 2; found `%s`' % c)
+        # --- cc = distances between the current centres and the new centre
+        if q == '_kcenters_iteration':
+            cc0 = ['%s[%s]' % (T, L), '%s[np.array(%s)]' % (T, L), '%s[list(%s)]' % (T, L)]
+            cc_whole = ['%s(%s, %s)' % (DM, f, NEW) for f in cc0]
+        else:
+            X = CS or 'centers'
+            cc0 = ['np.array(%s)' % X, '%s.copy()' % X, 'np.asarray(%s)' % X, X]
+            cc_whole = ['%s(%s, %s)' % (DM, f, NEW) for f in cc0] + [
+                'np.array([%s(_C, %s).squeeze() for _C in %s])' % (DM, NEW, X),
+                'np.asarray([%s(_C, %s).squeeze() for _C in %s])' % (DM, NEW, X),
+                'np.array([%s(_C, %s) for _C in %s]).squeeze()' % (DM, NEW, X)]
+        scope = {T, NEW, L, D, A} | ({CS} if CS else set()) | ({cc.id} if isinstance(cc, ast.Name) else set())
+
+        def cc_verdict(x, cc_whole=cc_whole, cc0=cc0, scope=scope):
+            v = _dm_verdict(x, DM, cc0, [NEW], cc_whole, scope)
+            if v[0] == 'far':
+                # per-centre form with another reference point
+                for w in cc_whole:
+                    if ' for _C in ' in w:
+                        b = match(w.replace(', %s)' % NEW, ', _P)'), _strip(x))
+                        if b is not None:
+                            return cls(b['_P'], [NEW], scope=scope)
+            return v
+        if isinstance(cc, ast.Name):
+            ccorig = [o for o in origins(du_expand(fi, mcmp, stop=(cc.id,), inline=False), cc.id) if o is not None]
+            sites = set()
+            for o in ccorig:
+                sites |= fi.defs_of_use(o)
+            if not sites:
+                ck.missing(rule + '.centre-dists', '%s: definition of `%s`' % (q, cc.id))
+            for site in sites:
+                v = fi.def_value(site, cc.id) if site not in ('PARAM', 'UNBOUND') else None
+                if v is None:
+                    ck.missing(rule + '.centre-dists', '%s: definition of `%s` is not a simple assignment' % (q, cc.id))
+                    continue
+                x = fi.expand(v, stop=(NEW,))
+                verdict = cc_verdict(x)
+                if verdict[0] == 'match' and not is_new(site):
+                    verdict = ('near', 1, None)
+                ck.decide(verdict, rule + '.centre-dists', mod, site, q, u(site)[:160],
+                          'centre-to-new-centre distances come from the current centres',
+                          'cc_dists must be the distances between the current centres and the new centre')
+        else:
+            x = fi.expand(cc, stop=(NEW,)) if cc is not None else None
+            ck.decide(cc_verdict(x) if x is not None else 'far', rule + '.centre-dists', mod, s, q, u(cc),
+                      'centre-to-new-centre distances come from the current centres',
+                      'cc_dists must be the distances between the current centres and the new centre')
+        # --- stores under the recompute mask
+        mkey = fi.xu(mcmp, strict=False)
+        st = [(a, t) for a, t in subscript_stores(fn) if isinstance(a, ast.Assign) and isinstance(t.value, ast.Name)
+              and fi.xu(t.slice, strict=False) == mkey]
+        if not st:
+            ck.missing(rule + '.recompute', '%s: no store `<candidate>[<recompute mask>] = ...` found' % q)
+            continue
+        cands = set()
+        for a, t in st:
+            cand = t.value.id
+            if cand == D:
+                ck.bad(rule + '.copy', mod, a, q, u(a),
+                       'the recomputed distances are written straight into the current distances `%s`: '
+                       'the strict commit mask then never sees an improvement and labels are not updated' % D)
+                continue
+            cands.add(cand)
+            x = fi.expand(a.value, stop=(NEW,), strict=False)
+            verdict = _dm_verdict(x, DM, ['%s[%s]' % (T, mkey)], [NEW], ['%s(%s[%s], %s)' % (DM, T, mkey, NEW)], scope)
+            if verdict[0] == 'match' and not is_new(a):
+                verdict = ('near', 1, None)
+            ck.decide(verdict, rule + '.recompute', mod, a, q, u(a),
+                      'masked frames get their true distance to the new centre',
+                      'recomputed entries must be %s(%s[<recompute mask>], %s)' % (DM, T, NEW))
+            # candidate is a copy of the current distances
+            for site in fi.defs_of_use(t.value):
+                vv = fi.def_value(site, cand) if site not in ('PARAM', 'UNBOUND') else None
+                if vv is None:
+                    ck.missing(rule + '.copy', '%s: definition of the candidate `%s` is not a simple assignment' % (q, cand))
+                    continue
+                xv = cx(fi.expand(vv))
+                why_bad = ('the candidate array must be a copy of `%s`: if it aliases '
+                           'it, recomputed values are written into the current distances '
+                           'before the strict commit mask is evaluated (labels are then '
+                           'never updated for them)' % D)
+                b = {'_D': ast.Name(id=D, ctx=ast.Load())}
+                if any(match(p, xv, b) is not None for p in COPY_FORMS):
+                    if fi.rd.defs_at(site, D) != {'PARAM'}:
+                        ck.missing(rule + '.copy', '%s: `%s` rebound before the candidate copy' % (q, D))
+                        continue
+                    ck.ok(rule + '.copy', mod, site, u(site), 'candidate distances start as a COPY of the current distances')
+                elif any(match(p, xv, b) is not None for p in ALIAS_FORMS):
+                    ck.bad(rule + '.copy', mod, site, q, u(site), why_bad)
+                else:
+                    ck.missing(rule + '.copy', '%s: cannot tell whether `%s` is a copy or a view of `%s`' % (q, u(site)[:100], D))
+        # --- guard of the shortcut: requested AND every frame already has a centre
+        facts = dominating_facts(fi, s)
+        _d5_guard(ck, rule + '.guard', mod, q, s, facts, USE, A)
+        # --- the plain branch: the candidate committed is otherwise the full distance computation
+        commits = [(a, t) for a, t in subscript_stores(fn, D) if isinstance(a, ast.Assign)
+                   and isinstance(a.value, ast.Subscript) and isinstance(a.value.value, ast.Name)]
+        if len(commits) != 1 or len(cands) != 1:
+            ck.missing(rule + '.plain', '%s: commit `%s[<mask>] = <candidate>[<mask>]` of the candidate (found %d, candidates %s)' % (
+                q, D, len(commits), sorted(cands)))
+            continue
+        ca, ct = commits[0]
+        X = ca.value.value
+        cand = next(iter(cands))
+        if X.id != cand:
+            ck.missing(rule + '.plain', '%s: the committed array `%s` is not the pruned candidate `%s`' % (q, X.id, cand))
+            continue
+        copy_sites = set()
+        for a, t in st:
+            copy_sites |= fi.defs_of_use(t.value)
+        plain = [d for d in fi.defs_of_use(X) if d not in copy_sites]
+        if not plain:
+            ck.missing(rule + '.plain', '%s: no definition of `%s` other than the shortcut reaches the commit' % (q, cand))
+        for site in plain:
+            vv = fi.def_value(site, cand) if site not in ('PARAM', 'UNBOUND') else None
+            if vv is None:
+                ck.missing(rule + '.plain', '%s: plain definition of `%s` is not a simple assignment' % (q, cand))
+                continue
+            x = fi.expand(vv, stop=(NEW,))
+            verdict = _dm_verdict(x, DM, [T], [NEW], ['%s(%s, %s)' % (DM, T, NEW)], scope)
+            if verdict[0] == 'match' and not is_new(site):
+                verdict = ('near', 1, None)
+            ck.decide(verdict, rule + '.plain', mod, site, q, u(site),
+                      'plain branch computes every distance to the new centre into the same candidate',
+                      'plain branch must assign %s(%s, %s) to `%s`' % (DM, T, NEW, cand))
     ck.floor(rule + '.threshold', n, 2, 'triangle-inequality sites')
+
+
+def _d5_guard(ck, rule, mod, q, s, facts, USE, A):
+    why_bad = ('the shortcut indexes cc_dists[assignments]: it must be guarded by '
+               'use_triangle_inequality AND all assignments >= 0')
+    shown = ' and '.join(('not ' if not fact_expr(f)[1] else '') + u(fact_expr(f)[0]) for f in facts) or '<unconditional>'
+    pos = {C('np.all(%s >= 0)' % A), C('np.all(%s > -1)' % A), C('np.all(%s != -1)' % A),
+           C('%s.min() >= 0' % A), C('%s.min() > -1' % A), C('-1 not in %s' % A), C('min(%s) >= 0' % A)}
+    neg = {C('np.any(%s < 0)' % A), C('np.any(%s <= -1)' % A), C('np.any(%s == -1)' % A),
+           C('%s.min() < 0' % A), C('-1 in %s' % A), C('%s.min() == -1' % A)}
+    have_use = have_all = False
+    about_use, about_a = [], []
+    for f in facts:
+        e, pol = fact_expr(f)
+        txt = ctext(e)
+        nl = names_loaded(e)
+        if USE and USE in nl:
+            if not isinstance(f, Cmp) and f[0] == 'expr' and txt == USE and pol is True:
+                have_use = True
+            else:
+                about_use.append((f, e, pol))
+        if A in nl:
+            if not (isinstance(f, tuple) and f[0] == 'opaque') and ((pol and txt in pos) or (not pol and txt in neg)):
+                have_all = True
+            else:
+                about_a.append((f, e, pol))
+    if USE is None:
+        ck.missing(rule, '%s has no use_triangle_inequality parameter' % q)
+    elif have_use:
+        ck.ok(rule, mod, s, shown, 'shortcut only when requested')
+    elif not about_use or any(isinstance(f, tuple) and f[0] == 'opaque' for f, _, _ in about_use) or \
+            any(ctext(e) == USE and pol is False for _, e, pol in about_use):
+        # no condition on the flag at all / a disjunction / the inverted flag
+        ck.bad(rule, mod, s, q, shown, why_bad)
+    else:
+        ck.missing(rule, '%s: condition on `%s` not recognised: %s' % (q, USE, shown[:160]))
+    if have_all:
+        ck.ok(rule, mod, s, shown, 'shortcut only when every frame already has a centre')
+    elif not about_a:
+        ck.bad(rule, mod, s, q, shown, why_bad)
+    else:
+        verdict = 'far'
+        for f, e, pol in about_a:
+            if isinstance(f, tuple) and f[0] == 'opaque':
+                verdict = 'near'
+                break
+            v = classify(e, ['np.all(%s >= 0)' % A], scope={A})
+            if v[0] in ('near', 'match'):
+                # a recognised test of the labels with the wrong content / polarity
+                verdict = 'near'
+                break
+        ck.decide(verdict, rule, mod, s, q, shown, '', why_bad)
 
 
 def check(ck):
